@@ -21,7 +21,7 @@ RULE = ('Hypothesis-generated programs dense in frame traffic and allocation (ar
         'shards dynamic array lengths come from argv and are swept up to the largest length the allocation guard admits (and '
         'one beyond), so that the allocation guard itself is the binding constraint; plus an exhaustive grid of small programs '
         'around one dynamic array (earlier expression depth 0-6 x element type x shape of the code that follows) run at every '
-        'stack size from 0 up to two above the first that succeeds, and a grid of write(int)/writeln(int) call sites (value of 1 digit / more digits than a word / the most negative 16-bit value) that are the deepest point of a frame holding live arrays of every kind, in @is_you, a block, a callee. Oracle (a): a '
+        'stack size from 0 up to two above the first that succeeds, and a grid of write(int)/writeln(int) call sites (value of 1 digit / more digits than a word / the most negative 16-bit value) that are the deepest point of a frame holding live arrays of every kind, in @is_you, a block, a callee; dynamic lengths whose size in bytes wraps around the word (ws >= 3) at several stack sizes. Oracle (a): a '
         'replay monitor judges every load, store and taken jump of the committed path: fp-based accesses within [ap, fp); '
         'element accesses inside the live array extent / global object their base belongs to (extents tracked from every '
         'change of ap); array-literal stores inside the newest extent; nothing through a non-fp base into the frame region, '
@@ -282,10 +282,59 @@ def check_vla_grid(stats, name, src, ws, n):
     return None
 
 
+def check_huge_length(stats, name, src, ws, n, S):
+    """A dynamic array length so large that its size in bytes wraps around the word (possible for ws >= 3): the run must
+    end in stack_overflow without a single out-of-region access, whatever the stack size."""
+    from ref.parse import parse_program
+    from ref.types import check_program as tcheck
+    prog = parse_program(src)
+    tcheck(prog)
+    ref = reference_for(prog, [n], ws, stack_words=S)
+    if ref.kind != 'fault:stack_overflow':
+        raise Discard('reference: ' + ref.kind)
+    run, mon = monitored_run(compile_lines(src, ws, S, False), [str(n)])
+    stats.evaluated()
+    stats.cls('huge_length_runs')
+    stats.nt('huge:%s:%d:%d:%d' % (name, ws, n, S))
+    where = 'huge dynamic length %s ws=%d n=%d S=%d' % (name, ws, n, S)
+    if run.res is None:
+        return ('asm', where + ': ' + run.outcome + '\n' + src)
+    if run.res.faults:
+        return ('machine_fault', '%s: machine fault on a (possibly speculative) path: %r\n%s' % (where, run.res.faults[:3], src))
+    if mon.violations:
+        pc, what, ins, stmt, fn = mon.violations[0]
+        return ('mem:' + what.split(' ')[0] + ':huge', '%s: %s  [pc %d `%s`; %s]\n%s' % (where, what, pc, ins, stmt, src))
+    if run.flags[-2:] != ['stack_overflow', 'error'] or not ref.output.startswith(run.out):
+        return ('huge_overflow', '%s: expected a clean stack_overflow after a prefix of %r, got output %r flags %r (%s)\n%s' % (
+            where, ref.output, run.out, run.flags, run.outcome, src))
+    return None
+
+
+def huge_lengths(ws):
+    full = (1 << (8 * ws)) // ws
+    hi = (1 << (8 * ws - 1)) - 1
+    return [v for v in (full, full + 1, full + 2, full + 5, full + 33, full + 100, full + 400, hi // ws, hi // ws + 1, hi, hi - 1,
+                        (1 << (8 * ws)) // 8 + 1, (1 << (8 * ws - 1)) // ws * 1 + 3) if 0 < v <= hi]
+
+
 def run_shard(k, seed, tier):
     stats = Stats()
     if isinstance(k, tuple):
         progs = vla_grid_programs() + write_site_programs()
+        if k[1] == 0:
+            for name, src in vla_grid_programs():
+                if not (name.startswith(('early0:', 'early3:')) and name.endswith((':locals', ':second'))):
+                    continue
+                for ws in ((3, 4) if tier == 'quick' else (3, 4, 5, 8)):
+                    for n in huge_lengths(ws):
+                        for S in ((S0, 30) if tier == 'quick' else (S0, 30, 3, 4000)):
+                            try:
+                                m = check_huge_length(stats, name, src, ws, n, S)
+                            except Discard as d:
+                                stats.discard(d.why)
+                                continue
+                            if m:
+                                stats.violation({'kind': 'huge_length', 'value': [name, ws, n, S], 'message': m[1], 'signature': m[0]})
         for pi, (name, src) in enumerate(progs):
             if pi % k[2] != k[1]:
                 continue
@@ -323,6 +372,16 @@ def run_shard(k, seed, tier):
 
 
 def replay(case):
+    if case.get('kind') == 'huge_length':
+        name, ws, n, S = case['value']
+        for n2, src in vla_grid_programs():
+            if n2 == name:
+                try:
+                    m = check_huge_length(Stats(), name, src, ws, n, S)
+                except Discard:
+                    return None
+                return m[1] if m else None
+        return None
     if case.get('kind') == 'vla_grid':
         name, ws, n = case['value']
         for n2, src in vla_grid_programs() + write_site_programs():
